@@ -320,6 +320,7 @@ auto count_min_sketch<W,A>::deserialize(std::istream& is, uint64_t seed, const A
   const auto nhashes = read<uint8_t>(is);
   const auto seed_hash = read<uint16_t>(is);
   read<uint8_t>(is); // 1 unused byte
+  if (!is.good()) throw std::runtime_error("error reading from std::istream");
 
   if (seed_hash != compute_seed_hash(seed)) {
     throw std::invalid_argument("Incompatible seed hashes: " + std::to_string(seed_hash) + ", "
@@ -333,6 +334,7 @@ auto count_min_sketch<W,A>::deserialize(std::istream& is, uint64_t seed, const A
   const auto weight = read<W>(is);
   c._total_weight += weight;
   read(is, c._sketch_array.data(), sizeof(W) * c._sketch_array.size());
+  if (!is.good()) throw std::runtime_error("error reading from std::istream");
 
   return c;
 }
@@ -421,11 +423,12 @@ auto count_min_sketch<W,A>::deserialize(const void* bytes, size_t size, uint64_t
     throw std::invalid_argument("Incompatible seed hashes: " + std::to_string(seed_hash) + ", "
                                 + std::to_string(compute_seed_hash(seed)));
   }
-  count_min_sketch c(nhashes, nbuckets, seed, allocator);
   const bool is_empty = (flags_byte & (1 << flags::IS_EMPTY)) > 0;
+  if (!is_empty) { // the weight and the table must follow the two preamble longs
+    ensure_minimum_memory(size - (ptr - static_cast<const char*>(bytes)), sizeof(W) * (1 + static_cast<size_t>(nbuckets) * nhashes));
+  }
+  count_min_sketch c(nhashes, nbuckets, seed, allocator);
   if (is_empty) return c; // sketch is empty, no need to read further.
-
-  ensure_minimum_memory(size, sizeof(W) * (1 + nbuckets * nhashes));
 
   // Long 2 is the weight.
   W weight;
